@@ -480,7 +480,7 @@ Proof.
   - generalize MAX_STACK. induction n; simpl; auto; split; auto; intros H; lia.
 Qed.
 Lemma init_agree : agree (abs (stk init_sst)) amap0.
-Proof. intros f b o Hf. unfold abs. simpl. now rewrite repeat_empty_find. Qed.
+Proof. intros f b o Hf. unfold abs. cbn [stk init_sst]. now rewrite repeat_empty_find. Qed.
 
 Lemma aupd_agree m m' k v : agree m m' -> agree (aupd m k v) (aupd m' k v).
 Proof. intros H f b o Hf. unfold aupd. destruct k as [[kf kb] ko]. destruct (_ && _); auto. Qed.
@@ -519,7 +519,7 @@ Proof.
 Qed.
 
 Lemma live_count_le l : (live_count l <= length l)%nat.
-Proof. unfold live_count. apply filter_length_le. Qed.
+Proof. unfold live_count. induction l as [|e r IH]; simpl; auto. destruct (e_type e >=? 0); simpl; lia. Qed.
 
 (* for EVERY history of well-formed calls: the 50 slots hold at most one entry per address, the table denotes the
    abstract cache obtained from the same calls and the evictions made, and every further call -- in particular
@@ -546,4 +546,249 @@ Proof.
   intros [->|[(f & ->)|(f & ty & ->)]]; cbn [sstep]; auto.
   - destruct ((f <? 0) || negb u); simpl; auto; discriminate.
   - destruct ((f <? 0) || negb u); simpl; auto; discriminate.
+Qed.
+
+(* ------------------------------------------------------------------ never stale *)
+Lemma key_eqb_eq a b : key_eqb a b = true <-> a = b.
+Proof.
+  destruct a as [[a1 a2] a3], b as [[b1 b2] b3]. unfold key_eqb. rewrite !andb_true_iff, !Z.eqb_eq.
+  split; [intros [[-> ->] ->]; auto|intros H; inversion H; auto].
+Qed.
+Lemma tainted_app a t k : tainted (a ++ t) k = tainted a k || tainted t k.
+Proof. unfold tainted. apply existsb_app. Qed.
+Lemma tainted_in t k : tainted t k = true <-> In k t.
+Proof.
+  unfold tainted. rewrite existsb_exists. split.
+  - intros (x & Hx & E). apply key_eqb_eq in E. now subst.
+  - intros H. exists k. split; auto. now apply key_eqb_eq.
+Qed.
+Lemma tainted_untaint_other t k k' : k' <> k -> tainted (untaint t k) k' = tainted t k'.
+Proof.
+  intros Hn. destruct (tainted t k') eqn:E.
+  - apply tainted_in. apply tainted_in in E. unfold untaint. apply filter_In. split; auto.
+    destruct (key_eqb k' k) eqn:E'; auto. apply key_eqb_eq in E'. congruence.
+  - destruct (tainted (untaint t k) k') eqn:E'; auto. apply tainted_in in E'. unfold untaint in E'.
+    apply filter_In in E'. destruct E' as [E' _]. apply tainted_in in E'. congruence.
+Qed.
+
+Lemma mget_ext m m' : forall n q, (forall i, (i < n)%nat -> mfind m (q + Z.of_nat i) = mfind m' (q + Z.of_nat i)) ->
+  mget m q n = mget m' q n.
+Proof.
+  induction n; intros q H; simpl; auto. f_equal.
+  - specialize (H 0%nat ltac:(lia)). now rewrite Z.add_0_r in H.
+  - apply IHn. intros i Hi. specialize (H (S i) ltac:(lia)).
+    replace (q + 1 + Z.of_nat i) with (q + Z.of_nat (S i)) by lia. auto.
+Qed.
+
+Lemma bs_get_put_other st f p data g q n : 0 <= f -> 0 <= g -> g <> f ->
+  bs_get (bs_put st f p data) g q n = bs_get st g q n.
+Proof.
+  intros Hf Hg Hn. unfold bs_get, bs_put.
+  assert (Hk : AdfCache.key g <> AdfCache.key f) by (intro E; apply key_inj in E; auto).
+  destruct (PositiveMap.find (AdfCache.key f) st); now rewrite PositiveMap.gso.
+Qed.
+Lemma bs_get_put_disjoint st f p data q n : 0 <= p -> 0 <= q ->
+  (q + Z.of_nat n <= p \/ p + lenZ data <= q) ->
+  bs_get (bs_put st f p data) f q n = bs_get st f q n.
+Proof.
+  intros Hp Hq Hd. unfold bs_get, bs_put.
+  destruct (PositiveMap.find (AdfCache.key f) st) as [m|] eqn:E; rewrite PositiveMap.gss.
+  - apply mget_ext. intros i Hi. rewrite mfind_mput by lia.
+    destruct (Z.leb_spec p (q + Z.of_nat i)), (Z.ltb_spec (q + Z.of_nat i) (p + lenZ data)); simpl; auto; lia.
+  - transitivity (mget (PositiveMap.empty Z) q n).
+    + apply mget_ext. intros i Hi. rewrite mfind_mput by lia.
+      destruct (Z.leb_spec p (q + Z.of_nat i)), (Z.ltb_spec (q + Z.of_nat i) (p + lenZ data)); simpl; auto; lia.
+    + clear. revert q. induction n; intros q; simpl; auto. f_equal; auto.
+      unfold mfind. now rewrite PositiveMap.gempty.
+Qed.
+
+Definition entry_ok (t : tst) (e : entry) : Prop :=
+  0 <= e_type e -> tainted (t_taint t) (entry_key e) = false ->
+  0 <= e_block e /\ 0 <= e_off e /\
+  e_data e = bs_get (t_store t) (e_file e) (e_block e * BLK + e_off e) (length (e_data e)).
+Definition TInv (t : tst) : Prop := WF (stk (t_stk t)) /\ forall e, In e (stk (t_stk t)) -> entry_ok t e.
+
+Lemma init_TInv : TInv init_tst.
+Proof.
+  split; [apply init_WF|]. intros e He. change (stk (t_stk init_tst)) with (repeat empty_entry MAX_STACK) in He.
+  apply repeat_spec in He. subst. intros H. simpl in H. lia.
+Qed.
+
+Lemma in_upd_nth {A} (l : list A) n x y : In y (upd_nth l n x) -> y = x \/ In y l.
+Proof.
+  revert n. induction l as [|a r IH]; intros [|n] H; simpl in *; auto.
+  - destruct H; auto.
+  - destruct H; auto. apply IH in H. tauto.
+Qed.
+
+(* what a call other than SET leaves in the table was there before, with the same bytes *)
+Lemma sstep_entries_sub u s p : WF (stk s) -> (forall f b o ty data, p <> SSet f b o ty data) ->
+  forall y, In y (stk (snd (fst (sstep u s p)))) -> 0 <= e_type y ->
+  exists z, In z (stk s) /\ entry_key y = entry_key z /\ e_data y = e_data z /\ 0 <= e_type z.
+Proof.
+  intros HW Hns y Hy Hlive. pose proof (wf_uniq _ HW) as Hu.
+  assert (Hmap : forall g, (forall z, g z = empty_entry \/ g z = z \/ g z = set_prio z 1) ->
+                 In y (map g (stk s)) -> exists z, In z (stk s) /\ entry_key y = entry_key z /\ e_data y = e_data z /\ 0 <= e_type z).
+  { intros g Hg Hin. apply in_map_iff in Hin. destruct Hin as (z & <- & Hz). exists z. split; auto.
+    destruct (Hg z) as [E|[E|E]]; rewrite E in *; auto. simpl in Hlive. lia. }
+  destruct p as [|f|f ty|f b o|f b o ty len|f b o ty data|id]; cbn [sstep] in Hy.
+  - cbn [fst snd stk] in Hy. apply (Hmap _ ltac:(intros; left; reflexivity) Hy).
+  - destruct ((f <? 0) || negb u); cbn [fst snd stk] in Hy.
+    + exists y; auto.
+    + apply (Hmap (clear_entry MClear f 0)); auto. intros z. cbn [clear_entry]. destruct (_ && _); auto.
+  - destruct ((f <? 0) || negb u); cbn [fst snd stk] in Hy.
+    + exists y; auto.
+    + apply (Hmap (clear_entry MClearType f ty)); auto. intros z. cbn [clear_entry]. destruct (_ && _); auto.
+      destruct (negb _); auto.
+  - destruct ((f <? 0) || negb u) eqn:Ec; cbn [fst snd stk] in Hy.
+    + exists y; auto.
+    + apply orb_false_iff in Ec. destruct Ec as [Ec _]. apply Z.ltb_ge in Ec. rewrite del_loop_map in Hy by auto.
+      apply (Hmap (del_entry f b o)); auto. intros z. unfold del_entry. destruct (addr_match z f b o); auto.
+  - destruct ((f <? 0) || negb u) eqn:Ec; cbn [fst snd stk] in Hy.
+    + exists y; auto.
+    + apply orb_false_iff in Ec. destruct Ec as [Ec _]. apply Z.ltb_ge in Ec. rewrite get_loop_map in Hy by auto.
+      cbn [fst snd stk] in Hy.
+      apply (Hmap (get_entry f b o ty)); auto. intros z. unfold get_entry. destruct (addr_match z f b o); auto.
+      destruct (e_type z =? ty); auto.
+  - exfalso. eapply Hns; eauto.
+  - cbn [fst snd stk] in Hy. exists y; auto.
+Qed.
+
+Lemma bytes_eqb_eq a b : bytes_eqb a b = true -> a = b.
+Proof. unfold bytes_eqb. destruct (list_eq_dec Z.eq_dec a b); auto; discriminate. Qed.
+
+Lemma overlay_same_len data old : length old = length data -> overlay data old = data.
+Proof. intros H. unfold overlay. rewrite skipn_all2 by lia. apply app_nil_r. Qed.
+
+Lemma tstep_inv t e : TInv t -> snd (tstep t e) = true -> TInv (fst (tstep t e)).
+Proof.
+  intros [HW HE] Hok. pose proof BLK_val as HB.
+  destruct e as [f d|f p data|u q]; cbn [tstep] in *.
+  - (* a file slot is taken: no entry of that slot exists *)
+    cbn [fst snd] in *. apply andb_true_iff in Hok. destruct Hok as [Hf Hno]. apply Z.leb_le in Hf.
+    rewrite forallb_forall in Hno.
+    split; auto. intros x Hx Hlive Hnt. cbn [t_stk t_store t_taint] in *.
+    destruct (HE x Hx Hlive Hnt) as (A & B & C). split; auto. split; auto.
+    rewrite C at 1. unfold bs_get. rewrite PositiveMap.gso; auto.
+    intro E. apply key_inj in E; auto.
+    + specialize (Hno x Hx). apply negb_true_iff in Hno. apply Z.eqb_neq in Hno. congruence.
+    + pose proof (wf_ent _ HW) as Hall. rewrite Forall_forall in Hall. apply (wf_entry_live _ (Hall x Hx)). auto.
+  - (* bytes reach the store: the entries they touch become suspect *)
+    cbn [fst snd] in *. apply andb_true_iff in Hok. destruct Hok as [Hf Hp]. apply Z.leb_le in Hf, Hp.
+    split; auto. intros x Hx Hlive Hnt. cbn [t_stk t_store t_taint] in *.
+    rewrite tainted_app in Hnt. apply orb_false_iff in Hnt. destruct Hnt as [Hnh Hnt].
+    destruct (HE x Hx Hlive Hnt) as (A & B & C). split; auto. split; auto.
+    assert (Hxf : 0 <= e_file x).
+    { pose proof (wf_ent _ HW) as Hall. rewrite Forall_forall in Hall. apply (wf_entry_live _ (Hall x Hx)). auto. }
+    destruct (Z.eq_dec (e_file x) f) as [Ef|Ef].
+    + (* same file: not touched means disjoint *)
+      assert (Hnt' : touches f p (lenZ data) x = false).
+      { destruct (touches f p (lenZ data) x) eqn:Et; auto. exfalso.
+        assert (Hin : In (entry_key x) (hit_keys (stk (t_stk t)) f p (lenZ data))).
+        { unfold hit_keys. apply in_map. apply filter_In. auto. }
+        apply tainted_in in Hin. congruence. }
+      unfold touches in Hnt'. rewrite Ef, Z.eqb_refl in Hnt'.
+      destruct (Z.geb_spec (e_type x) 0); [|lia]. cbn [andb] in Hnt'.
+      rewrite Ef. rewrite bs_get_put_disjoint; [rewrite <- Ef; exact C|auto|lia|].
+      unfold lenZ in *.
+      destruct (Z.ltb_spec (e_block x * BLK + e_off x) (p + Z.of_nat (length data))),
+               (Z.ltb_spec p (e_block x * BLK + e_off x + Z.of_nat (length (e_data x)))); simpl in Hnt'; try discriminate; lia.
+    + rewrite bs_get_put_other; auto.
+  - (* a stack call *)
+    destruct (sstep u (t_stk t) q) as [[r s'] ev] eqn:Es.
+    assert (Hs' : s' = snd (fst (sstep u (t_stk t) q))) by (now rewrite Es).
+    assert (Hr : r = fst (fst (sstep u (t_stk t) q))) by (now rewrite Es).
+    assert (Hsub : (forall f b o ty data, q <> SSet f b o ty data) -> snd (tstep t (TStack u q)) = true ->
+                   TInv (mkT s' (t_store t) (t_taint t))).
+    { intros Hns _. split.
+      - rewrite Hs'. apply sstep_refines; auto. destruct q; auto. exfalso. eapply Hns; eauto.
+      - intros y Hy Hlive Hnt. cbn [t_stk t_store t_taint] in *. rewrite Hs' in Hy.
+        destruct (sstep_entries_sub u (t_stk t) q HW Hns y Hy Hlive) as (z & Hz & K1 & K2 & K3).
+        rewrite K1 in Hnt. destruct (HE z Hz K3 Hnt) as (A & B & C).
+        unfold entry_key in K1. inversion K1. rewrite H0, H1, H2, K2. auto. }
+    destruct q as [|f|f ty|f b o|f b o ty len|f b o ty data|id]; cbn [fst snd] in *;
+      try (apply Hsub; [intros; discriminate|cbn [tstep]; rewrite Es; auto]).
+    (* SET *)
+    clear Hsub. apply andb_true_iff in Hok. destruct Hok as [Hok Hlen].
+    apply andb_true_iff in Hok. destruct Hok as [Hok Hbytes]. apply bytes_eqb_eq in Hbytes.
+    apply andb_true_iff in Hok. destruct Hok as [Hok Ho]. apply andb_true_iff in Hok. destruct Hok as [Hok Hb].
+    apply andb_true_iff in Hok. destruct Hok as [Hok Hf]. apply andb_true_iff in Hok. destruct Hok as [Hu Hv].
+    apply Z.leb_le in Hf, Hb, Ho. subst u.
+    split.
+    { rewrite Hs'. apply sstep_refines; auto. }
+    clear Hs' Hr.
+    intros y Hy Hlive Hnt. cbn [t_stk t_store t_taint] in *.
+    cbn [sstep] in Es. destruct (Z.ltb_spec f 0); [lia|]. cbn [negb orb] in Es.
+    destruct (set_stk (stk (t_stk t)) f b o ty data) as [l' ev'] eqn:Eset. inversion Es; subst s' ev'. clear Es.
+    cbn [stk] in Hy.
+    (* every entry of the new table is the new one, or a former one passed through set_entry *)
+    assert (Hfrom : y = mkE f b o ty 1 data \/ exists z, In z (stk (t_stk t)) /\ y = set_entry f b o data z).
+    { unfold set_stk in Eset. destruct (a_found _ =? 2); inversion Eset; subst l'.
+      - right. apply in_map_iff in Hy. destruct Hy as (z & <- & Hz). eauto.
+      - apply in_upd_nth in Hy. destruct Hy as [->|Hy]; auto.
+        right. apply in_map_iff in Hy. destruct Hy as (z & <- & Hz). eauto. }
+    destruct Hfrom as [->|(z & Hz & ->)].
+    + cbn [e_file e_block e_off e_data e_type]. split; auto.
+    + rewrite set_entry_key in Hnt. rewrite set_entry_type in Hlive.
+      destruct (addr_match z f b o) eqn:Em.
+      * (* refreshed in place: same length, the bytes just passed *)
+        assert (Hcl : cached_len (stk (t_stk t)) f b o = Some (length (e_data z))).
+        { unfold cached_len.
+          destruct (find (fun e => addr_match e f b o) (stk (t_stk t))) as [w|] eqn:Ew.
+          - destruct (find_some_in _ _ _ _ _ Ew) as [Hw Kw]. apply addr_match_key in Em.
+            assert (w = z) as ->; auto.
+            pose proof (wf_uniq _ HW) as Hu. clear -Hu Hz Hw Kw Em H.
+            induction (stk (t_stk t)) as [|a r IH]; simpl in *; [tauto|]. destruct Hu as [U1 U2].
+            assert (Hfa : forall v, entry_key v = (f, b, o) -> 0 <= e_file v)
+              by (intros v Hv; unfold entry_key in Hv; inversion Hv; lia).
+            destruct Hz as [->|Hz], Hw as [->|Hw]; auto.
+            + exfalso. apply (U1 (Hfa _ Em) w Hw). congruence.
+            + exfalso. apply (U1 (Hfa _ Kw) z Hz). congruence.
+          - exfalso. apply addr_match_key in Em. apply (proj1 (find_none_forall _ _ _ _) Ew z Hz Em). }
+        rewrite Hcl in Hlen. apply Nat.eqb_eq in Hlen.
+        unfold set_entry. rewrite Em. cbn [e_file e_block e_off e_data].
+        rewrite overlay_same_len by auto. apply addr_match_key in Em. unfold entry_key in Em.
+        injection Em as M1 M2 M3. split; [lia|]. split; [lia|]. rewrite M1, M2, M3. exact Hbytes.
+      * (* another address: only its priority moved *)
+        rewrite tainted_untaint_other in Hnt by (apply addr_match_false_key in Em; auto).
+        destruct (HE z Hz Hlive Hnt) as (A & B & C).
+        assert (K : entry_key (set_entry f b o data z) = entry_key z) by apply set_entry_key.
+        unfold entry_key in K. injection K as K1 K2 K3. rewrite K1, K2, K3, set_entry_data_other; auto.
+Qed.
+
+Lemma trun_inv : forall h t, TInv t -> disciplined t h = true -> TInv (trun t h).
+Proof.
+  induction h as [|e r IH]; intros t HT Hd; simpl; auto.
+  simpl in Hd. apply andb_true_iff in Hd. destruct Hd as [H1 H2]. apply IH; auto. now apply tstep_inv.
+Qed.
+Lemma disciplined_app : forall a t b, disciplined t (a ++ b) = disciplined t a && disciplined (trun t a) b.
+Proof. induction a; intros; simpl; auto. rewrite IHa. now rewrite andb_assoc. Qed.
+
+(* under the caller discipline a GET hit returns the bytes the ideal store holds NOW at that address *)
+Theorem stack_never_stale : forall pre u f b o ty len d,
+  disciplined init_tst (pre ++ [TStack u (SGet f b o ty len)]) = true ->
+  fst (fst (sstep u (t_stk (trun init_tst pre)) (SGet f b o ty len))) = SFound d ->
+  d = bs_get (t_store (trun init_tst pre)) f (b * BLK + o) (Z.to_nat len).
+Proof.
+  intros pre u f b o ty len d Hd Hr.
+  rewrite disciplined_app in Hd. apply andb_true_iff in Hd. destruct Hd as [Hpre Hlast].
+  pose proof (trun_inv pre init_tst init_TInv Hpre) as [HW HE].
+  set (t := trun init_tst pre) in *.
+  cbn [disciplined] in Hlast. rewrite andb_true_r in Hlast. cbn [tstep] in Hlast.
+  destruct (sstep u (t_stk t) (SGet f b o ty len)) as [[r s'] ev] eqn:Es. cbn [fst snd] in *. subst r.
+  apply andb_true_iff in Hlast. destruct Hlast as [Hnt Hlen]. apply negb_true_iff in Hnt.
+  pose proof (sstep_refines u (t_stk t) (SGet f b o ty len) HW eq_refl) as (_ & _ & R).
+  rewrite Es in R. cbn [fst snd ideal_result] in R.
+  destruct ((f <? 0) || negb u) eqn:Ec; [discriminate|].
+  apply orb_false_iff in Ec. destruct Ec as [Ec _]. apply Z.ltb_ge in Ec.
+  unfold abs in R. unfold cached_len in Hlen.
+  destruct (find (fun e => addr_match e f b o) (stk (t_stk t))) as [e|] eqn:Ef; [|discriminate].
+  destruct (find_some_in _ _ _ _ _ Ef) as [He Hk].
+  destruct (e_type e =? ty) eqn:Et; [|discriminate]. inversion R; subst d. apply Z.eqb_eq in Hlen.
+  assert (Hlive : 0 <= e_type e).
+  { pose proof (wf_ent _ HW) as Hall. rewrite Forall_forall in Hall. apply (wf_entry_live _ (Hall e He)).
+    unfold entry_key in Hk. inversion Hk. lia. }
+  rewrite <- Hk in Hnt. destruct (HE e He Hlive Hnt) as (A & B & C).
+  unfold entry_key in Hk. inversion Hk. subst.
+  rewrite Nat2Z.id. rewrite firstn_all. exact C.
 Qed.
